@@ -30,3 +30,4 @@ def run(rep):
     dr.rule_header(rep, "C14.langfault")
     br.rule_rect(rep, "C14.ragged")
     lr.rule_scanner(rep, "C14.line", "C14.scan")
+    lr.rule_token(rep, "C14.token")
